@@ -97,7 +97,7 @@ let parse_item (w : string) : item =
 
 let parse_items (w : string) : item list = if w = "." then [] else List.map parse_item (String.split_on_char ',' w)
 
-type pword = POp of op | PKind of logger * sev | PGet of nat * nat
+type pword = POp of op | PKind of logger * sev | PGet of nat * nat | PDirect of logger * sev * str
 
 let nslots = 4
 
@@ -117,6 +117,10 @@ let parse_word (o : string) : pword =
   | 'N', [h; lg; sv; tag] when String.length h = 2 -> POp (OOpen (nat_of_int (digit h.[1] nslots), parse_logger lg, sev_of_int (digit sv.[0] 6), parse_tag tag))
   | 'P', [h; it] when String.length h = 2 -> POp (OPut (nat_of_int (digit h.[1] nslots), parse_item it))
   | 'X', [_] when String.length o = 2 -> POp (OClose (nat_of_int (digit o.[1] nslots)))
+  | 'R', [h; lg; sv; tag; its] when String.length h = 1 ->
+      (* the named local moved into another variable half-way: the same statement (LogProofs.named_moved_same) *)
+      POp (ONamed (CNormal, parse_logger lg, sev_of_int (digit sv.[0] 6), parse_tag tag, parse_items its))
+  | 'D', [h; lg; sv; msg] when String.length h = 1 -> PDirect (parse_logger lg, sev_of_int (digit sv.[0] 6), str_of_hex msg)
   | 'K', [_; lg; sv] -> PKind (parse_logger lg, sev_of_int (digit sv.[0] 6))
   | _ -> raise Bad
 
@@ -134,20 +138,27 @@ let tok_of_event = function
   | Fault -> "FAULT"
 
 (* run the program one word at a time, threading the world; `step` is exec_prog (model) or spec_prog (spec) *)
-let trace_with step init kind thr (w : string list) : string list =
+let trace_with step init kind thr direct (w : string list) : string list =
   let (mn, prog) = parse_case w in
   let cfg = { c_min = mn; c_fmt = harness_fmt } in
   let world = ref init and out = ref [] in
   List.iter (function
     | POp o -> let (w', ev) = step cfg !world [o] in world := w'; List.iter (fun e -> out := tok_of_event e :: !out) ev
     | PKind (_, sv) -> out := ("K" ^ kind mn sv) :: !out
+    | PDirect (lg, sv, msg) -> List.iter (fun t -> out := t :: !out) (direct cfg !world lg sv msg)
     | PGet (rc, k) -> out := ("G" ^ string_of_int (int_of_sev (thr !world rc k))) :: !out) prog;
   List.rev !out
 
 let model_tokens w = trace_with exec_prog init_world (fun mn sv -> match stream_kind mn sv with KSmart -> "1" | KNull -> "0")
-                        (fun wd rc k -> min_severity wd.w_th rc k) w
+                        (fun wd rc k -> min_severity wd.w_th rc k)
+                        (fun cfg wd lg sv msg ->   (* logger::will_log on a record of severity sv, then logger::log(sv, record) *)
+                           let r = { r_sev = sv; r_tag = []; r_msg = msg } in
+                           (if filt (wd.w_th lg.lg_rec) lg.lg_filter r then "W1" else "W0") :: List.map tok_of_event (log_record cfg lg sv r)) w
 let spec_tokens w = trace_with spec_prog init_sworld (fun mn sv -> if gate_open mn sv then "1" else "0")
-                       (fun sw rc k -> min_severity sw.s_th rc k) w
+                       (fun sw rc k -> min_severity sw.s_th rc k)
+                       (fun cfg sw lg sv msg ->
+                          let r = { r_sev = sv; r_tag = []; r_msg = msg } in
+                          (if holds (sw.s_th lg.lg_rec) lg.lg_filter sv then "W1" else "W0") :: List.map tok_of_event (delivery cfg lg sv r)) w
 
 (* observation line: "-" when nothing happened, else "ev" followed by the event tokens *)
 let line_of_tokens = function [] -> "-" | l -> String.concat " " ("ev" :: l)
